@@ -229,7 +229,49 @@ func gen(kind string) func(t *rapid.T) Case {
 
 var kinds = []string{"arraystack", "linkedliststack", "arrayqueue", "linkedlistqueue", "circularbuffer"}
 
+// genLong: hundreds of operations — stacks and queues that grow past the array
+// list's capacity thresholds (64, 128, 256) and shrink again, rings of
+// capacities the short target does not use (10..15, 31..33, 64, 100) with
+// hundreds of wrap-arounds.
+var longCaps = []int{10, 11, 12, 13, 14, 15, 31, 32, 33, 64, 100}
+
+func genLong(kind string) func(t *rapid.T) Case {
+	return func(t *rapid.T) Case {
+		c := Case{Kind: kind}
+		if kind == "circularbuffer" {
+			c.Cap = longCaps[rapid.IntRange(0, len(longCaps)-1).Draw(t, "cap")]
+		}
+		next := 1
+		phases := rapid.IntRange(1, 8).Draw(t, "phases")
+		for p := 0; p < phases; p++ {
+			n := rapid.IntRange(1, 220).Draw(t, "len")
+			switch dom.Weighted(t, "phase", 5, 4, 4, 1) {
+			case 0: // grow
+				for i := 0; i < n; i++ {
+					c.Ops = append(c.Ops, Op{O: "add", V: next})
+					next++
+				}
+			case 1: // shrink
+				for i := 0; i < n; i++ {
+					c.Ops = append(c.Ops, Op{O: "take"})
+				}
+			case 2: // steady state: add one, take one
+				for i := 0; i < n; i++ {
+					c.Ops = append(c.Ops, Op{O: "add", V: next}, Op{O: "take"})
+					next++
+				}
+			default:
+				c.Ops = append(c.Ops, Op{O: "clear"})
+			}
+		}
+		return c
+	}
+}
+
 func TestGenerated(t *testing.T) {
+	for _, k := range kinds {
+		pbt.Run(t, pbt.Target[Case]{Name: k + "/long", Checks: 1000, Gen: genLong(k), Check: check})
+	}
 	for _, k := range kinds {
 		n := 20000
 		if k == "circularbuffer" {
